@@ -1007,9 +1007,21 @@ impl ErasedNode for Node {
         } else if !self.is_necessary() {
             NodeUpdateDelayed::Unnecessary
         } else {
-            match self.value_as_any().is_some() {
-                true => NodeUpdateDelayed::Changed,
-                false => NodeUpdateDelayed::Necessary,
+            /* [Changed] means "changed during the stabilisation that just finished" (upstream
+            decides this from [old_value_opt], which is only set when the value changed).
+            A node that merely has a value is [Necessary]: the per-handler transition table
+            turns that into an initialisation for handlers that have never run and into
+            nothing for the others. Reporting [Changed] whenever there is a value made every
+            existing subscriber receive a spurious Changed(same value) each time the node
+            was queued for some other reason (a new observer or subscription on it). */
+            let changed_now = match self.state_opt() {
+                // this runs in stabilise_end, after the stabilisation number was bumped
+                Some(t) => self.changed_at.get().add1() == t.stabilisation_num.get(),
+                None => false,
+            };
+            match (self.value_as_any().is_some(), changed_now) {
+                (true, true) => NodeUpdateDelayed::Changed,
+                _ => NodeUpdateDelayed::Necessary,
             }
         }
     }
